@@ -251,6 +251,7 @@ pub fn case_from_bytes(p: &Profile, data: &[u8]) -> Option<Case> {
         stream_self_wakes: if s.pct(30) { s.range(1, 2) as u8 } else { 0 },
         guard_syncs: s.pct(15),
         stream_wakes_on_drop: s.pct(30),
+        payload_bomb: false,
     };
     let ncallers = s.range(p.callers.0, p.callers.1);
     let mut callers = vec![];
